@@ -5,7 +5,7 @@ use quiver_core::bytecode::Constant;
 use quiver_core::error::Error;
 use quiver_core::program::Program;
 use quiver_core::types::TypeLookup;
-use quiver_core::value::{Binary, Value};
+use quiver_core::value::Value;
 use quiver_environment::{Command, Event};
 use qvh::{Bins, hex};
 use std::collections::HashMap;
@@ -338,4 +338,3 @@ pub mod quiver_environment_results {
     pub type Map = HashMap<usize, Option<Result<(Value, Vec<Vec<u8>>), Error>>>;
 }
 
-pub fn bin_of(_b: &Binary) {}
